@@ -8,6 +8,7 @@ import (
 	"crypto/sha256"
 	"encoding/binary"
 	"encoding/hex"
+	"errors"
 	"fmt"
 	"io"
 	"reflect"
@@ -31,6 +32,7 @@ type DRBG struct {
 	ctr  uint64
 	buf  []byte
 	Mode int // 0 honest (seeded), 1 constant zeros, 2 constant 0xAA
+	Slot int // position of the owning party (used to pick disjoint pre-generated primes)
 }
 
 func NewDRBG(label string, seed int64) *DRBG {
@@ -102,6 +104,23 @@ func Use(r io.Reader) {
 	sw.mu.Lock()
 	sw.cur = r
 	sw.mu.Unlock()
+}
+
+// ReadCurrent reads from the reader currently in use (the acting party's stream).
+func ReadCurrent(p []byte) {
+	sw.mu.Lock()
+	defer sw.mu.Unlock()
+	sw.cur.Read(p)
+}
+
+// CurrentSlot returns the Slot of the DRBG in use (0 if the reader is not a DRBG).
+func CurrentSlot() int {
+	sw.mu.Lock()
+	defer sw.mu.Unlock()
+	if d, ok := sw.cur.(*DRBG); ok {
+		return d.Slot
+	}
+	return 0
 }
 
 // ---- parties ----------------------------------------------------------------------------------
@@ -239,10 +258,10 @@ func (p *Party) Force(m *protocol.Message) {
 }
 
 func (p *Party) Result() (interface{}, error) {
-	var r interface{}
-	var err error
-	p.call(func() { r, err = p.H.Result() })
-	return r, err
+	if p.Hung != "" {
+		return nil, errors.New("harness: an earlier call on this handler never returned")
+	}
+	return p.H.Result()
 }
 
 // Status: "running", "done", "error".
